@@ -103,6 +103,10 @@ Definition obj (a : cid) (P : form) : sobj :=
     else SProc a P
   | FFwd to from false =>
     if is_self to then match chan from with Some b => SFwd a b | None => SProc a P end else SProc a P
+  | FFwd to from true =>
+    (* `fwd^drop self b`: not source syntax — the term the interpreter creates for `drop b`; it IS the
+       pending weakening request on b (its own channel a is administrative: nobody refers to it) *)
+    if is_self to then match chan from with Some b => SDrop b | None => SProc a P end else SProc a P
   | _ => SProc a P
   end.
 
